@@ -8,6 +8,7 @@
 mod cachecmd;
 mod hostscmd;
 mod j;
+mod mergecmd;
 mod namescmd;
 mod wirecmd;
 mod zonecmd;
@@ -65,6 +66,7 @@ fn main() {
         "names" => namescmd::names(&args[2], &args[3]),
         "zone-text" => zonetextcmd::zone_text(&args[2], &args[3]),
         "parse-only" => zonetextcmd::parse_only(&args[2], &args[3]),
+        "zone-merge" => mergecmd::zone_merge(&args[2], &args[3]),
         "zone-resolve" => zonecmd::zone_resolve(&args[2], &args[3]),
         other => {
             eprintln!("unknown command {other}");
